@@ -57,6 +57,24 @@ def run(ctx):
         discharged += proved
         obligations += 2
         discharged += special_cells(ctx, prog, pty, name, fmt)
+    # round trips posit -> float -> posit (the float side is the repository's own from_fXX): identity for every bit pattern
+    for pty, fname in ((P8, 'f64'), (P16, 'f64'), (P32, 'f64'), (P8, 'f32'), (P16, 'f32')):
+        c, pr = rules_routing.float_round_trip(ctx, prog, pty, fname)
+        obligations += c
+        discharged += pr
+        # zero and NaR round trips (singleton cells)
+        I = Interp(prog)
+        to = prog.inherent(pty.tykey, 'to_' + fname)
+        fr = prog.inherent(pty.tykey, 'from_' + fname)
+        for x in (0, pty.nar):
+            obligations += 1
+            o1 = I.run(to, [posit_arg(pty, x, x, 0)])
+            o2 = I.run(fr, [o1.value]) if o1.kind == 'return' else o1
+            d = gcr.describe(o2.value) if o2.kind == 'return' else (o2.kind,)
+            if d == ('const', x):
+                discharged += 1
+            else:
+                ctx.finding('R7-roundtrip', '%s::from_%s(to_%s)' % (pty.name, fname, fname), 'cell={%#x}' % x, 'round trip of %#x gives %s' % (x, d))
     # P32E2::to_f32 is the IEEE rounding (language-defined `as` cast) of the exact to_f64
     se = SymEval(prog)
     p32f32 = prog.inherent(P32.tykey, 'to_f32')
@@ -100,8 +118,10 @@ def run(ctx):
     ctx.require('C03 routing cells', ctx.cov.get('routing_cells', 0), 734)
     ctx.trusted += ['`f64 as f32` is IEEE round-to-nearest-even (language definition)', 'fmt "{}" of f64 prints the shortest round-tripping decimal; f64::from_str is correctly rounded (std)',
                     'oracle routing built from the posit and IEEE-754 field definitions']
-    ctx.undecided['round_trips'] = 'posit -> f64 -> posit and posit -> text -> posit identities additionally need float->posit correctness on the general path (C02, not decided)'
+    ctx.undecided['round_trips'] = ('posit -> text -> posit relies on std formatting/parsing of f64 (trusted) on top of the proved f64 round trip; '
+                                   'P32E2 -> f32 -> P32E2 is not an identity (f32 is narrower) and is not claimed')
     level = LEVEL if obligations == discharged else 'other'
     return level, ('to_f32/to_f64 of P8E0 and P16E1 and to_f64 of P32E2 are proved exact for every bit pattern: on each of the regime cells partitioning all encodings '
                    'the result is bit-for-bit the specified routing of the fraction bits with the specified sign/exponent constants; zero and NaR map to +0.0 and NaN; '
-                   'P32E2::to_f32 is the language-defined rounding of the exact f64; Display/FromStr go through f64.')
+                   'P32E2::to_f32 is the language-defined rounding of the exact f64; Display/FromStr go through f64; posit -> f64 -> posit (and -> f32 -> for P8E0/P16E1) is '
+                   'proved the identity for every bit pattern by the same routing argument through the repository\'s from_f64/from_f32.')
